@@ -99,9 +99,8 @@ def mathematicalDaysInYear (y : Int) : Out Int :=
 
 /-- `utils::epoch_time_to_epoch_year(t)` -/
 def epochTimeToEpochYear (t : Int) : Int :=
-  let epochDays := t / MS_PER_DAY
-  let (rd, shift) := NS.rataDieForEpochDays epochDays
-  NS.year rd shift
+  let r := NS.rataDieForEpochDays (t / MS_PER_DAY)
+  NS.year r.1 r.2
 
 /-- `utils::iso_days_in_month(year, month)`; other months hit `unreachable!`. -/
 def isoDaysInMonth (year month : Int) : Out Int :=
